@@ -280,45 +280,102 @@ def _interval_name(ob, x):
     return "table interval #%d" % pi
 
 
+def AS_input(GP, abs_in):
+    """value a GroupPipe fed into the absolute input name (through the model's own connection table)"""
+    src = GP.conn.get(abs_in)
+    if src is None or src not in GP.vals:
+        raise KeyError(abs_in)
+    a = np.asarray(GP.vals[src], dtype=object)
+    return a.reshape(tuple(GP.meta_in[abs_in]["shape"])) if a.size == int(np.prod(GP.meta_in[abs_in]["shape"])) else a
+
+
+def replay_aerostruct(surfs):
+    """the real coupled model on floats: defining identities of the point's functionals from the per-surface outputs"""
+    from props import groups
+
+    import copy
+
+    surfs = [copy.deepcopy(x) for x in surfs]
+    for k, x in enumerate(surfs):  # the surfaces apart from each other (the symbolic run does not care, the real kernels do)
+        x["mesh"] = np.array(x["mesh"], dtype=float) + np.array([6.0 * k, 0.0, 1.0 * k])
+    prob = groups.aerostruct_problem(list(surfs) if len(surfs) > 1 else surfs[0], vals={"alpha": 3.0, "Mach_number": 0.5, "v": 150.0, "rho": 0.9, "W0": 2000.0, "R": 2.0e6})
+    prob.run_model()
+    P = "AS_point_0."
+    names = [x["name"] for x in surfs]
+    Si = [float(prob.get_val(P + "coupled.%s.S_ref" % n)[0]) for n in names]
+    CLi = [float(prob.get_val(P + "%s_perf.CL" % n)[0]) for n in names]
+    CDi = [float(prob.get_val(P + "%s_perf.CD" % n)[0]) for n in names]
+    St = float(prob.get_val(P + "total_perf.S_ref_total")[0])
+    CL, CD = float(prob.get_val(P + "CL")[0]), float(prob.get_val(P + "CD")[0])
+    bad = []
+    if model.differs(St, sum(Si), 1e-8):
+        bad.append("S_ref_total = %.9g, sum of the surface areas = %.9g" % (St, sum(Si)))
+    if model.differs(CL, sum(a * b for a, b in zip(Si, CLi)) / sum(Si), 1e-8):
+        bad.append("CL = %.9g, area-weighted surface CL = %.9g" % (CL, sum(a * b for a, b in zip(Si, CLi)) / sum(Si)))
+    if model.differs(CD, sum(a * b for a, b in zip(Si, CDi)) / sum(Si), 1e-8):
+        bad.append("CD = %.9g, area-weighted surface CD = %.9g" % (CD, sum(a * b for a, b in zip(Si, CDi)) / sum(Si)))
+    return bool(bad), "; ".join(bad) or "the real coupled model satisfies the identities"
+
+
 def group_level(rep, tier, timeout):
     """total_perf of the real AerostructPoint and AeroPoint groups, executed through their own wiring: the identities hold
     between the *group's own* variables (which coefficient, area, mass and fuel burn reaches which functional)."""
     from props import groups
 
-    s = K.surface(2, 3, True)
-    s.update({"thickness_cp": np.array([0.1, 0.2]), "twist_cp": np.zeros(2)})
-    AS = groups.aerostruct_symbolic(s)
-    AS.encode(rep)
-    v = lambda n: AS.get(n)
-    P = "AS_point_0."
-    g = lambda n: AS.vals[n]
-    rho, vel = g("prob_vars.rho")[0], g("prob_vars.v")[0]
-    W0, n_, R, CT, a, M = (g("prob_vars." + k)[0] for k in ("W0", "load_factor", "R", "CT", "speed_of_sound", "Mach_number"))
-    Ws = g("wing.struct_setup.structural_mass.structural_mass")[0]
-    Sref = v(P + "coupled.wing.aero_geom.S_ref")[0] if (P + "coupled.wing.aero_geom.S_ref") in AS.vals else v(P + "coupled.wing.S_ref")[0]
-    Stot = v(P + "total_perf.sum_areas.S_ref_total")[0]
-    CLs, CDs = v(P + "wing_perf.aero_funcs.CL.CL")[0], v(P + "wing_perf.aero_funcs.CD.CD")[0]
-    CL, CD = v(P + "total_perf.CL_CD.CL")[0], v(P + "total_perf.CL_CD.CD")[0]
-    fb = v(P + "total_perf.fuelburn.fuelburn")[0]
-    LW = v(P + "total_perf.L_equals_W.L_equals_W")[0]
-    tw = v(P + "total_perf.L_equals_W.total_weight")[0]
-    cg = v(P + "total_perf.CG.cg")
-    q = S(0.5) * rho * vel * vel
-    obs = [
-        oblig.Ob("S_ref_total == wing S_ref", lhs=Stot, rhs=Sref, meta={"family": "reference area of the point is the sum of the surface areas of the same group"}),
-        oblig.Ob("CL == S CL_wing / S_total", lhs=CL, rhs=CLs * Sref / Stot, meta={"family": "aircraft CL is the area-weighted surface CL of the same group"}),
-        oblig.Ob("CD == S CD_wing / S_total", lhs=CD, rhs=CDs * Sref / Stot, meta={"family": "aircraft CD is the area-weighted surface CD of the same group"}),
-        oblig.Ob("fuelburn == Breguet(total CL, CD)", lhs=fb, rhs=(W0 + Ws) * (exp(R * CT / a / M * CD / CL) - ONE),
-                 meta={"family": "fuel burn follows the Breguet equation with the aircraft CL and CD and the structural mass of the same group"}),
-        oblig.Ob("total_weight", lhs=tw, rhs=(Ws + fb + W0) * G * n_, meta={"family": "total weight uses the structural mass and the fuel burn of the same group"}),
-        oblig.Ob("L_equals_W", lhs=LW, rhs=ONE - q * Stot * CL / ((Ws + fb + W0) * G * n_), meta={"family": "lift-equals-weight residual uses the aircraft CL, the summed area and the fuel burn of the same group"}),
-    ]
-    ecg = g("prob_vars.empty_cg")
-    cgl = g("wing.struct_setup.structural_cg.cg_location")
-    for k in range(3):
-        obs.append(oblig.Ob("cg[%d]" % k, lhs=cg[k], rhs=(W0 * ecg[k] + Ws * cgl[k]) / (tw / (G * n_) - fb),
-                            meta={"family": "aircraft cg is the mass-weighted mean of the empty and structural cg of the same group"}))
-    run_obligations(rep, "real AerostructPoint group: total_perf wiring", obs, timeout, levels=(1, 2), family=lambda ob: "AerostructPoint: " + ob.meta["family"])
+    s1 = K.surface(2, 3, True)
+    s1.update({"thickness_cp": np.array([0.1, 0.2]), "twist_cp": np.zeros(2)})
+    s2 = K.surface(2, 2, True, name="tail")
+    s2.update({"thickness_cp": np.array([0.1]), "twist_cp": np.zeros(1)})
+    for surfs in ([s1], [s1, s2]):
+        names = [x["name"] for x in surfs]
+        AS = groups.aerostruct_symbolic(surfs if len(surfs) > 1 else surfs[0])
+        AS.encode(rep)
+        v = lambda n: AS.get(n)
+        P = "AS_point_0."
+        g = lambda n: AS.vals[n]
+        rho, vel = g("prob_vars.rho")[0], g("prob_vars.v")[0]
+        W0, n_, R, CT, a, M = (g("prob_vars." + k)[0] for k in ("W0", "load_factor", "R", "CT", "speed_of_sound", "Mach_number"))
+        Ws_i = {n: g("%s.struct_setup.structural_mass.structural_mass" % n)[0] for n in names}
+        Ws = sum(Ws_i.values(), ZERO)
+        Sref_i = {n: (v(P + "coupled.%s.aero_geom.S_ref" % n)[0] if (P + "coupled.%s.aero_geom.S_ref" % n) in AS.vals else v(P + "coupled.%s.S_ref" % n)[0]) for n in names}
+        Stot = v(P + "total_perf.sum_areas.S_ref_total")[0]
+        CLs = {n: v(P + "%s_perf.aero_funcs.CL.CL" % n)[0] for n in names}
+        CDs = {n: v(P + "%s_perf.aero_funcs.CD.CD" % n)[0] for n in names}
+        CL, CD = v(P + "total_perf.CL_CD.CL")[0], v(P + "total_perf.CL_CD.CD")[0]
+        fb = v(P + "total_perf.fuelburn.fuelburn")[0]
+        LW = v(P + "total_perf.L_equals_W.L_equals_W")[0]
+        tw = v(P + "total_perf.L_equals_W.total_weight")[0]
+        cg = v(P + "total_perf.CG.cg")
+        q = S(0.5) * rho * vel * vel
+        tag = " (%d surface%s)" % (len(names), "s" if len(names) > 1 else "")
+        obs = [
+            oblig.Ob("S_ref_total == sum of the surface areas", lhs=Stot, rhs=sum(Sref_i.values(), ZERO), meta={"family": "reference area of the point is the sum of the surface areas of the same group" + tag}),
+            oblig.Ob("CL == sum S_i CL_i / S_total", lhs=CL, rhs=sum((CLs[n] * Sref_i[n] for n in names), ZERO) / Stot, meta={"family": "aircraft CL is the area-weighted surface CL of the same group" + tag}),
+            oblig.Ob("CD == sum S_i CD_i / S_total", lhs=CD, rhs=sum((CDs[n] * Sref_i[n] for n in names), ZERO) / Stot, meta={"family": "aircraft CD is the area-weighted surface CD of the same group" + tag}),
+            oblig.Ob("fuelburn == Breguet(total CL, CD)", lhs=fb, rhs=(W0 + Ws) * (exp(R * CT / a / M * CD / CL) - ONE),
+                     meta={"family": "fuel burn follows the Breguet equation with the aircraft CL and CD and the structural mass of the same group" + tag}),
+            oblig.Ob("total_weight", lhs=tw, rhs=(Ws + fb + W0) * G * n_, meta={"family": "total weight uses the structural mass and the fuel burn of the same group" + tag}),
+            oblig.Ob("L_equals_W", lhs=LW, rhs=ONE - q * Stot * CL / ((Ws + fb + W0) * G * n_), meta={"family": "lift-equals-weight residual uses the aircraft CL, the summed area and the fuel burn of the same group" + tag}),
+        ]
+        ecg = g("prob_vars.empty_cg")
+        cgl = {n: g("%s.struct_setup.structural_cg.cg_location" % n) for n in names}
+        for k in range(3):
+            obs.append(oblig.Ob("cg[%d]" % k, lhs=cg[k], rhs=(W0 * ecg[k] + sum((Ws_i[n] * cgl[n][k] for n in names), ZERO)) / (tw / (G * n_) - fb),
+                                meta={"family": "aircraft cg is the mass-weighted mean of the empty and structural cg of the same group" + tag}))
+        # the moment functional is fed the geometry of the surface whose name it carries
+        for n in names:
+            for q_, src in (("b_pts", "b_pts"), ("widths", "widths"), ("chords", "chords"), ("S_ref", "S_ref")):
+                try:
+                    got = AS_input(AS, P + "total_perf.moment.%s_%s" % (n, q_))
+                    want = v(P + "coupled.%s.aero_geom.%s" % (n, src)) if (P + "coupled.%s.aero_geom.%s" % (n, src)) in AS.vals else v(P + "coupled.%s.%s" % (n, src))
+                except KeyError:
+                    continue
+                obs += idents("moment input %s_%s" % (n, q_), got, want, meta={"family": "the moment functional receives each surface's own geometry" + tag})
+
+        def rp(ob, env, surfs=surfs):
+            return replay_aerostruct(surfs)
+
+        run_obligations(rep, "real AerostructPoint group: total_perf wiring" + tag, obs, timeout, levels=(1, 2), replay=rp, family=lambda ob: "AerostructPoint: " + ob.meta["family"])
     # AeroPoint with a user-specified reference area: the given area must be the one that normalises CL, CD and CM
     import openmdao.api as om
     from openaerostruct.aerodynamics.aero_groups import AeroPoint
